@@ -251,8 +251,10 @@ impl Prop for PTime {
                     let ts = [libc::timespec { tv_sec: la.0, tv_nsec: la.1 }, libc::timespec { tv_sec: lm.0, tv_nsec: lm.1 }];
                     unsafe { libc::utimensat(libc::AT_FDCWD, c.as_ptr(), ts.as_ptr(), libc::AT_SYMLINK_NOFOLLOW) };
                 }
+                // the reference may be the entry itself: its X timestamp against its own Y timestamp
+                let selfref = reflink.is_empty() && plan.get("selfref").and_then(|b| b.as_bool()).unwrap_or(false);
                 let (a, m, c) = stamps(&e);
-                let (ra, rm, rc) = stamps(&f);
+                let (ra, rm, rc) = if selfref { (a, m, c) } else { stamps(&f) };
                 let now = match plan["now_rel"].as_str().unwrap_or("real") {
                     "c" => add(c, off("now_off")),
                     "m" => add(m, off("now_off")),
@@ -269,7 +271,7 @@ impl Prop for PTime {
                         };
                         vec![age_prim(t["kind"].as_str().unwrap_or("m"), t["unit"].as_str().unwrap_or("day")), format!("{}{}", sign, t["n"].as_u64().unwrap_or(0))]
                     } else {
-                        vec![t["alias"].as_str().unwrap_or("-newer").to_string(), if reflink.is_empty() { "F".into() } else { "FL".into() }]
+                        vec![t["alias"].as_str().unwrap_or("-newer").to_string(), if selfref { "R/e".into() } else if reflink.is_empty() { "F".into() } else { "FL".into() }]
                     };
                     match selected_mode(&dir, now, &reflink[..reflink.len().min(1)], &args) {
                         Ok(b) => res.push(json!(b)),
@@ -307,7 +309,9 @@ impl Prop for PTime {
         };
         let mut plan = json!({"ea": off(rng), "em": off(rng), "ra": off(rng), "rm": off(rng), "gap_us": rng.below(3) * 1500,
                           "now_rel": *rng.pick(&["real", "c", "m", "a", "c"]), "now_off": off(rng)});
-        if rng.chance(1, 3) {
+        if rng.chance(1, 6) {
+            plan["selfref"] = json!(true);
+        } else if rng.chance(1, 3) {
             plan["reflink"] = json!(*rng.pick(&["P", "H", "L", "Ld", "P"]));
             plan["la"] = off(rng);
             plan["lm"] = off(rng);
